@@ -105,6 +105,14 @@ func Family(quick bool) []*wm.World {
 		}
 		res = append(res, w)
 	}
+	// Route targets of a kind other than Service (ignored with a warning): as the only target, and next to a Service target
+	for _, to := range [][]string{{"Deployment/s"}, {"s", "Deployment/s2"}, {"Deployment/s2", "s"}} {
+		w := &wm.World{WLs: []wm.Workload{w1p, w2}}
+		w.Svcs = []wm.Svc{{NS: "ns1", Name: "s", Sel: map[string]string{"app": "a"}, Ports: []wm.SvcPort{{Name: "p1", Port: 80}}},
+			{NS: "ns1", Name: "s2", Sel: map[string]string{"app": "b"}, Ports: []wm.SvcPort{{Name: "p1", Port: 80}}}}
+		w.Routes = []wm.Route{{NS: "ns1", Name: "r", To: to}}
+		res = append(res, w)
+	}
 	return res
 }
 
